@@ -614,8 +614,10 @@ def judge_fuzz(run: Run, ftasks: list[dict], fres: list[dict], policy: str, unde
             run.count("fuzz:total_budget_reached_every_request_returned")
         if st not in BAD:
             continue
-        if st == "exc:RecursionError" and (r.get("meter") or {}).get("adds", 0) < 1000:
-            run.count("fuzz:recursion_outside_parser")       # the expander's own recursion (C01), parser barely ran
+        if st == "exc:RecursionError" and int((r.get("last_request") or {}).get("steps", 0)) < 1000:
+            # the interpreter's stack overflowed while the parse request that was running (if any) had barely
+            # started: the expander's own recursion on a recursive grammar (C01), not a parse that does not return
+            run.count("fuzz:recursion_outside_parser")
             continue
         what = (f"fuzz run ({t['kind']}: the value {t['word']!r} is parsed under <c06g> internally): a parse request inside it "
                 f"does not come back: {st} (limit {t['step_limit']} metered steps per request, meter {r.get('meter')}, "
@@ -658,7 +660,7 @@ def judge_fuzz(run: Run, ftasks: list[dict], fres: list[dict], policy: str, unde
         rr = eio.run_pool([{**t, "step_limit": 10 * t["step_limit"], "total_budget": 40 * t["step_limit"], "cap_s": 600.0}],
                           workers=1, backstop_s=120.0, fn=c06_fuzz.fuzz_case)[0]
         if rr.get("status") == "steplimit" or (rr.get("status") == "exc:RecursionError"
-                                               and (rr.get("meter") or {}).get("adds", 0) >= 1000):
+                                               and int((rr.get("last_request") or {}).get("steps", 0)) >= 1000):
             run.report("C06/divergence-in-fuzz", what + " — the same parse request, made alone, comes back "
                        f"({pr.get('status')}, {pr.get('meter')}); inside the fuzz run a request is still over a 10x "
                        f"per-request step limit ({rr.get('last_request')})", rp)
